@@ -595,7 +595,7 @@ public:
 
         // Dimensions
         const size_t nof_groups(std::get<0>(w.dims()));
-        const size_t nof_vertices(std::get<0>(u.dims()));
+        const size_t nof_vertices(A.num_vertices());
         const size_t nof_layers(A.num_layers());
 
         // Results
